@@ -270,6 +270,22 @@ def check_paths(case, ctx: Ctx):
     ctx.call("fill_n(transformed=True)", e4.fill_n, tarr if h.ndim > 1 else tarr.reshape(-1), transformed=True, **kw)
     assert_contents(ctx, e4, m, "fill_n(transformed=True)")
     paths += 3
+    # single-precision input: the same points as float32 arrays (exactly representable) land in the same bins
+    arr32 = arr.astype(np.float32)
+    if len(pts) and np.array_equal(arr32.astype(np.float64), arr):
+        e5 = empty.copy()
+        kw = {} if ws is None else {"weights": warr}
+        ctx.call("fill_n(float32 array)", e5.fill_n, arr32, **kw)
+        assert_contents(ctx, e5, m, "fill_n(float32 array)")
+        e6 = empty.copy()
+        for k in range(len(pts)):
+            w = 1 if ws is None else ws[k]
+            f32 = ctx.call("find_bin(float32 point)", e6.find_bin, arr32[k])
+            r32 = ctx.call("fill(float32 point)", e6.fill, arr32[k], w)
+            require(f32 == r32, "float32_find_vs_fill", f"{pts[k]}: {f32!r} vs {r32!r}")
+        assert_contents(ctx, e6, m, "fill(float32 points)")
+        ctx.label("float32_input")
+        paths += 2
     # wrong dimensionality
     wrong = [1.0] * (5 - src_dim(name)) if name not in ("radial2", "radial3") else [1.0]
     ctx.refused("fill with a point of the wrong dimension", empty.copy().fill, wrong)
@@ -307,7 +323,12 @@ def path_cases(draw, tier="quick"):
     name = draw(st.sampled_from(CLASSES))
     d = src_dim(name)
     n = draw(st.integers(1, 12))
-    pts = draw(st.lists(st.lists(_COMP.filter(lambda c: abs(c) < 1e5), min_size=d, max_size=d), min_size=n, max_size=n))
+    if draw(st.integers(0, 2)) == 0:
+        # single-precision-exact coordinates, many on the diagonals / axes where phi and theta sit on bin edges
+        comp = st.one_of(st.sampled_from([0.0, 1.0, -1.0, 1.0, -1.0, 2.0, -2.0, 0.5, 3.0, 7.25]), st.floats(-10, 10, allow_nan=False, width=32))
+    else:
+        comp = _COMP.filter(lambda c: abs(c) < 1e5)
+    pts = draw(st.lists(st.lists(comp, min_size=d, max_size=d), min_size=n, max_size=n))
     bins = {}
     r_edges = draw(st.sampled_from([[0.0, 1.0, 2.5, 5.0, 20.0], [0.0, 0.5, 1.0, 1.5, 4.0, 9.0, 16.0], [0.5, 2.0, 8.0], [0.0, 1e-9, 1.0, 12.0], [0.0, 3.0]]))
     if name in ("polar", "radial2", "radial3", "spherical", "cylindrical"):
